@@ -4,7 +4,7 @@ import json
 import random
 
 from . import gen
-from .common import Report, run_driver_parallel, seed, log
+from .common import Report, run_driver_parallel, seed, log, load_findings
 from .impl import run_cases, schema_to_wire
 
 # ------------------------------------------------------------------ implementation side (workers)
@@ -224,7 +224,7 @@ def run(prop, tier, replay=None):
     rep.check_proofs()
     n_schemas, n_values = (120, 8) if tier == "quick" else (1500, 24)
     if prop == "C16":
-        n_schemas, n_values = (80, 5) if tier == "quick" else (800, 12)
+        n_schemas, n_values = (50, 4) if tier == "quick" else (800, 12)
 
     descs = []
     if replay is not None:
@@ -348,8 +348,8 @@ def run(prop, tier, replay=None):
             dec_jobs.append((ci, "own", ib))
         if prop in ("C16",) or tier == "thorough" or ci % 7 == 0:
             # every truncation point
-            pts = range(len(spec)) if len(spec) <= 64 or tier == "thorough" else sorted(
-                set(list(range(0, 24)) + list(range(len(spec) - 24, len(spec))) + rng.sample(range(len(spec)), 16)))
+            pts = range(len(spec)) if len(spec) <= 40 or tier == "thorough" else sorted(
+                set(list(range(0, 12)) + list(range(len(spec) - 12, len(spec))) + rng.sample(range(len(spec)), 12)))
             for k in pts:
                 dec_jobs.append((ci, "trunc", spec[:k]))
             # corrupted length prefixes
@@ -491,6 +491,11 @@ def run(prop, tier, replay=None):
             rep.violation({"kind": "buffer-ops", "ops": s["ops"], "observed": a, "expected": b,
                            "what": "_Buffer and the Lean Buf model disagree on an operation sequence"}, no_input=True)
 
+    if prop == "C02":
+        check_vectors(rep)
+    if prop == "C16":
+        probe_zero_width(rep)
+
     rep.cov["rule"] = (
         "schemas from a seeded generator over every type constructor (depth<=3, widths 1..64 with boundary mass, "
         "ids shuffled vs declaration order) plus a width x alignment x boundary-value sweep; values in range incl. "
@@ -533,3 +538,145 @@ def known_zero_width(d, name):
         return False
 
     return has(("struct", name))
+
+
+# ------------------------------------------------------------------ C02: the project's vectors
+
+
+def w_vector_schema(case):
+    from fcp.parser import get_fcp
+
+    r = get_fcp(case["path"])
+    return r.unwrap().to_dict()
+
+
+def w_vector_codec(case):
+    from fcp.parser import get_fcp
+    from fcp import serde
+
+    fcp = get_fcp(case["path"]).unwrap()
+    enc = list(serde.encode(fcp, case["struct"], case["value"]))
+    dec = serde.decode(fcp, case["struct"], bytearray(case["bytes"]))
+    return {"enc": enc, "dec": dec}
+
+
+def check_vectors(rep):
+    """translate tests/standardized/fcp_tests.json to Lean (kernel-checked against `Wire`) and
+    run the same vectors through the Python codec"""
+    from . import translators
+    from .common import REPO, lake_build
+
+    sdir = REPO / "tests" / "standardized"
+    files = sorted(p.name for p in sdir.glob("*.fcp"))
+    res = run_cases("harness.codec", "w_vector_schema", [{"path": str(sdir / f)} for f in files], timeout_s=30)
+    sds = {}
+    for f, r in zip(files, res):
+        if "ok" not in r:
+            rep.violation({"kind": "vector-schema", "file": f, "observed": r,
+                           "what": "vector schema no longer parses"}, no_input=True)
+            return
+        sds[f] = r["ok"]
+    try:
+        vectors = translators.load_vectors(sds)
+        names = translators.write_vectors_lean(sds, vectors)
+    except Exception as ex:
+        rep.violation({"kind": "vector-translation", "error": repr(ex),
+                       "what": "fcp_tests.json could not be translated"}, no_input=True)
+        return
+    ok, out = lake_build(["Generated"])
+    rep.cov["obligations"] += 2 * len(names)
+    rep.cov["vector_theorems"] = 2 * len(names)
+    # run the vectors through the implementation as well
+    ires = run_cases(
+        "harness.codec", "w_vector_codec",
+        [{"path": str(sdir / sch), "struct": st, "value": pyv, "bytes": by} for (_, _, sch, st, pyv, mv, by) in vectors],
+        timeout_s=30,
+    )
+    mres = run_driver_parallel(
+        [{"op": "codec", "schema": schema_to_wire(sds[sch]), "struct": st, "value": mv, "bytes": by}
+         for (_, _, sch, st, pyv, mv, by) in vectors]
+    )
+    bad_spec = 0
+    for (suite, name, sch, st, pyv, mv, by), ir, mr in zip(vectors, ires, mres):
+        rep.count(json.dumps(["vector", suite, name]))
+        rep.hist("decode_inputs", "vector")
+        spec_ok = mr.get("spec_bytes") == by and mr.get("spec_dec") == mv
+        if not spec_ok:
+            bad_spec += 1
+        impl_ok = "ok" in ir and ir["ok"]["enc"] == by
+        if impl_ok:
+            try:
+                d = gen.Desc()
+                impl_ok = _vec_model(sds[sch], st, ir["ok"]["dec"]) == mv
+            except Exception:
+                impl_ok = False
+        if not impl_ok:
+            rep.cov["disagreements_checked"] += 1
+            rep.violation({"kind": "vector", "suite": suite, "vector": name, "schema_file": sch, "struct": st,
+                           "value": mv, "expected_bytes": by, "observed": ir,
+                           "what": "Python codec does not reproduce a cross-language test vector"})
+        elif not spec_ok:
+            rep.violation({"kind": "vector-vs-spec", "suite": suite, "vector": name, "expected_bytes": by,
+                           "spec": mr, "what": "theorem Generated.Vectors.%s_%s no longer checks: the Wire "
+                           "specification does not reproduce this vector (the Python codec does)" % (suite, name)},
+                          no_input=True)
+    if ok and bad_spec == 0:
+        from .common import audit_names
+        okc, bad = audit_names("Generated.Vectors", [f"Fcp.Vectors.{n}_{k}" for n in names for k in ("enc", "dec")])
+        rep.cov["discharged"] += okc
+        if bad:
+            rep.proof_ok = False
+            rep.proof_details += bad
+    elif not ok and bad_spec == 0:
+        rep.proof_ok = False
+        rep.proof_details.append("Generated/Vectors.lean failed to build: " + out[-800:])
+
+
+def _vec_model(sd, struct, py):
+    """model value of a decoded dict, following the to_dict() types"""
+
+    def go(t, v):
+        k = t["type"]
+        if k in ("unsigned", "signed", "Enum"):
+            return v
+        if k == "float":
+            return gen.f2w32(v)
+        if k == "double":
+            return gen.f2w64(v)
+        if k == "str":
+            return {"s": [ord(c) for c in v]}
+        if k in ("Array", "DynamicArray"):
+            return [go(t["underlying_type"], x) for x in v]
+        if k == "Optional":
+            return None if v is None else {"some": go(t["underlying_type"], v)}
+        if k == "Struct":
+            s = next(s for s in sd["structs"] if s["name"] == t["name"])
+            return [go(f["type"], v[f["name"]]) for f in sorted(s["fields"], key=lambda f: f["field_id"])]
+        raise ValueError(k)
+
+    return go({"type": "Struct", "name": struct}, py)
+
+
+ZERO_WIDTH_WITNESS = {
+    "text": 'version: "3"\nstruct A {\n    a @ 0: [[u8, 0]],\n}\n',
+    "struct": "A",
+    "bytes": [0, 0, 16, 0],  # announces 2^20 zero-width elements, no payload
+    "cap": 50_000,
+}
+
+
+def probe_zero_width(rep):
+    """recorded finding: with a zero-width element type the work is proportional to the
+    announced length, not to the input (inherent to the format: no decoder can bound it)"""
+    r = run_cases("harness.codec", "w_decode", [ZERO_WIDTH_WITNESS], timeout_s=30)[0]
+    cls, _ = canon_impl_result(r)
+    rep.cov["zero_width_witness"] = cls
+    listed = any(f.get("property") == "C16" and f.get("id") == "zero-width-elements" and f.get("status") == "open"
+                 for f in load_findings())
+    if cls in ("cap", "hang"):
+        if listed:
+            rep.known_finding("struct A { a @0: [[u8,0]] } with length prefix 2^20 and no payload: "
+                              "decode performs >50000 loop iterations on 4 input bytes (zero-width element type)")
+        else:
+            rep.violation(dict(ZERO_WIDTH_WITNESS, kind="work", observed=cls,
+                               what="work not bounded by input length"))
